@@ -16,6 +16,16 @@ PROPS = {
     },
 }
 
+PROPS["C02"] = {
+    "test": "TestC02", "level": "exploration", "registered": True, "engine": "sim",
+    "shards_quick": 8, "shards_thorough": 16, "timeout": 900, "min_classes_quick": 60,
+    "technique": "runtime monitor: hook-placed interleavings of request steps with deploy steps in virtual time; oracle over client responses",
+    "level_text": "Every client request issued around 1-5 successive redeploys is placed (arrival offset + per-request virtual delays at the route-resolved and gate-passed hooks) against the hook-delayed steps of the real deploy command; the oracle demands status 200, a marker header naming a target of the old or new generation and that target's exact body. Evidence counts the distinct (resolve,gate,claim) gap triples actually observed.",
+    "level_note": "Trusted: synctest clock, hook placement (hooks are outside locks), fake targets. Preconditions (all targets healthy, latencies below the drain timeout) hold by construction.",
+    "rule": "a class is (slot, position of route-resolved / gate-passed / claim among the 7 deploy-side hook events); non-trivial = at least one request step fell strictly inside the deploy; requests generated on a grid arrival x d1 x d2",
+    "assumptions": ["targets of both generations always healthy and faster than the drain timeout", "go1.26.8 synctest"],
+}
+
 ENGINES = [
     {"name": "sim", "path": "/verif/harness (world_test.go)", "kind_free_text": "real internal/server code in a testing/synctest bubble (virtual time) on an in-memory network with scripted fake targets and hook-placed delays; monitors judge recorded events", "serves_properties": []},
 ]
